@@ -6,6 +6,9 @@ package main
 // global outside initialisers (the `global-immutable` obligations of C15).
 
 import (
+	"regexp"
+	"go/types"
+	"go/token"
 	"fmt"
 	"sort"
 	"strings"
@@ -85,6 +88,12 @@ func (en *Engine) runInit(fn *ssa.Function) (err error) {
 	for r, c := range final.mem {
 		if r.kind == "global" && r.global != nil {
 			en.globalInit[r.global] = c
+		} else {
+			// memory allocated by an initialiser (reachable only through package variables)
+			if en.initMem == nil {
+				en.initMem = map[*Region]Cell{}
+			}
+			en.initMem[r] = c
 		}
 	}
 	return nil
@@ -97,11 +106,23 @@ type GlobalStore struct {
 	Guard  string
 }
 
-// ScanGlobalStores lists every store (or address escape through a call) targeting a
-// package-level variable of the module outside package initialisers.
-func (en *Engine) ScanGlobalStores() []GlobalStore {
-	var out []GlobalStore
+// GlobalsCheck: every package-level variable of the module is written only by package
+// initialisers (obligation kind `global-immutable`, one per variable and configuration), and the
+// module starts no goroutines of its own (`no-go`). A write is a store instruction whose address is
+// derived from the variable (or from a slice/pointer loaded from it), or a call that passes such an
+// address to a parameter the callee may write (callee's modifies clause, or -- without a
+// contract -- the syntactic may-write analysis of its body). A write that is dominated by a test of
+// a boolean package variable which itself has no writer and is initially false is unreachable
+// in production use and is accepted (testBatchY under testBatchSaveY).
+func (en *Engine) GlobalsCheck(run *checkRun) []*Obligation {
+	type writer struct {
+		fn, pos, how string
+		guard       *ssa.Global
+	}
+	writers := map[*ssa.Global][]writer{}
+	var globals []*ssa.Global
 	var fns []*ssa.Function
+	goStmts := []string{}
 	for fn := range ssautil.AllFunctions(en.prog) {
 		if fn.Pkg == nil || !modulePkg(fn.Pkg.Pkg.Path()) || fn.Blocks == nil {
 			continue
@@ -109,6 +130,18 @@ func (en *Engine) ScanGlobalStores() []GlobalStore {
 		fns = append(fns, fn)
 	}
 	sort.Slice(fns, func(i, j int) bool { return fns[i].String() < fns[j].String() })
+	for path, pkg := range en.pkgs {
+		if !modulePkg(path) {
+			continue
+		}
+		for _, m := range pkg.Members {
+			if g, ok := m.(*ssa.Global); ok && !strings.HasPrefix(g.Name(), "init$") {
+				globals = append(globals, g)
+			}
+		}
+	}
+	sort.Slice(globals, func(i, j int) bool { return globals[i].String() < globals[j].String() })
+	isMod := func(g *ssa.Global) bool { return g != nil && g.Pkg != nil && modulePkg(g.Pkg.Pkg.Path()) }
 	for _, fn := range fns {
 		if isInitFunc(fn) {
 			continue
@@ -119,26 +152,105 @@ func (en *Engine) ScanGlobalStores() []GlobalStore {
 		for _, b := range fn.Blocks {
 			for _, ins := range b.Instrs {
 				switch x := ins.(type) {
+				case *ssa.Go:
+					goStmts = append(goStmts, fn.String()+" at "+posOf(en, x.Pos()))
 				case *ssa.Store:
-					if g := baseGlobal(x.Addr); g != nil && g.Pkg != nil && modulePkg(g.Pkg.Pkg.Path()) {
-						out = append(out, GlobalStore{Global: g.Pkg.Pkg.Name() + "." + g.Name(), Func: fn.String(), Pos: posOf(en, x.Pos())})
+					if g := baseGlobal(x.Addr); isMod(g) {
+						writers[g] = append(writers[g], writer{fn.String(), posOf(en, x.Pos()), "store", guardGlobal(b)})
+					}
+				case *ssa.MapUpdate:
+					if g := baseGlobal(x.Map); isMod(g) {
+						writers[g] = append(writers[g], writer{fn.String(), posOf(en, x.Pos()), "map update", guardGlobal(b)})
 					}
 				case *ssa.Call:
-					// passing the address of (part of) a global to a callee that may write it
-					for ai, a := range x.Call.Args {
+					if bi, ok := x.Call.Value.(*ssa.Builtin); ok {
+						if bi.Name() == "copy" || bi.Name() == "append" || bi.Name() == "clear" {
+							// append writes in place when the capacity suffices
+							if g := baseGlobal(x.Call.Args[0]); isMod(g) && len(x.Call.Args) > 1 {
+								writers[g] = append(writers[g], writer{fn.String(), posOf(en, x.Pos()), bi.Name() + " into the variable's backing store", guardGlobal(b)})
+							}
+						}
+						continue
+					}
+					args := x.Call.Args
+					if x.Call.IsInvoke() {
+						if g := baseGlobal(x.Call.Value); isMod(g) {
+							writers[g] = append(writers[g], writer{fn.String(), posOf(en, x.Pos()), "method call on the variable", guardGlobal(b)})
+						}
+					}
+					for ai, a := range args {
 						g := baseGlobal(a)
-						if g == nil || g.Pkg == nil || !modulePkg(g.Pkg.Pkg.Path()) {
+						if !isMod(g) {
 							continue
 						}
 						if en.calleeMayWrite(x, ai) {
-							out = append(out, GlobalStore{Global: g.Pkg.Pkg.Name() + "." + g.Name(), Func: fn.String(), Pos: posOf(en, x.Pos()), Guard: "address passed to " + x.Call.Value.Name()})
+							writers[g] = append(writers[g], writer{fn.String(), posOf(en, x.Pos()), "address passed to " + x.Call.Value.Name() + ", which may write it", guardGlobal(b)})
 						}
 					}
 				}
 			}
 		}
 	}
+	var out []*Obligation
+	mk := func(name, kind string, ok bool, detail string) {
+		goal := True()
+		if !ok {
+			goal = False()
+		}
+		out = append(out, &Obligation{Name: name, Kind: kind, Func: "globals", Goal: goal, Detail: detail})
+	}
+	initFalse := func(g *ssa.Global) bool {
+		c, ok := en.globalInit[g]
+		if !ok {
+			return true // never initialised: zero value
+		}
+		if t, ok := c.(*Term); ok {
+			return t.IsFalse() || (t.IsConst() && t.k.Sign() == 0)
+		}
+		return false
+	}
+	for _, g := range globals {
+		name := g.Pkg.Pkg.Name() + "." + g.Name()
+		var bad, accepted []string
+		for _, w := range writers[g] {
+			if w.guard != nil && len(writers[w.guard]) == 0 && initFalse(w.guard) && isMod(w.guard) {
+				accepted = append(accepted, fmt.Sprintf("%s %s in %s is reachable only when %s is set, which no function of the module does", w.how, w.pos, w.fn, w.guard.Name()))
+				continue
+			}
+			bad = append(bad, fmt.Sprintf("%s at %s in %s", w.how, w.pos, w.fn))
+		}
+		detail := "package variable " + name + " is written only during package initialisation"
+		if len(accepted) > 0 {
+			detail += " (" + strings.Join(accepted, "; ") + ")"
+		}
+		if len(bad) > 0 {
+			detail += "; WRITERS: " + strings.Join(bad, "; ")
+		}
+		mk(fmt.Sprintf("globals.%s[%s]/global-immutable#1", name, en.cfgName), "global-immutable", len(bad) == 0, detail)
+	}
+	mk(fmt.Sprintf("globals.concurrency[%s]/no-go#1", en.cfgName), "no-go", len(goStmts) == 0, "the module starts no goroutines: "+strings.Join(goStmts, "; "))
+	run.instances = append(run.instances, instanceInfo{Func: "package-level variables", Config: en.cfgName, Alias: "globals", Paths: 1, Obls: len(out)})
 	return out
+}
+
+// guardGlobal: the block is dominated by the true branch of `if G` for a package variable G.
+func guardGlobal(b *ssa.BasicBlock) *ssa.Global {
+	for d := b; d != nil; d = d.Idom() {
+		p := d.Idom()
+		if p == nil {
+			break
+		}
+		iff, ok := p.Instrs[len(p.Instrs)-1].(*ssa.If)
+		if !ok || len(p.Succs) != 2 || p.Succs[0] != d || len(d.Preds) != 1 {
+			continue
+		}
+		if ld, ok := iff.Cond.(*ssa.UnOp); ok && ld.Op == token.MUL {
+			if g, ok := ld.X.(*ssa.Global); ok {
+				return g
+			}
+		}
+	}
+	return nil
 }
 
 func baseGlobal(v ssa.Value) *ssa.Global {
@@ -156,10 +268,13 @@ func baseGlobal(v ssa.Value) *ssa.Global {
 			v = x.X
 		case *ssa.Convert:
 			v = x.X
+		case *ssa.MakeInterface:
+			v = x.X
 		case *ssa.UnOp:
-			// a load of a global slice header: writes through it hit the slice's backing store
-			if g, ok := x.X.(*ssa.Global); ok {
-				if _, isSlice := g.Type().Underlying().(interface{ Elem() interface{} }); isSlice {
+			// a load of a global slice / pointer / map: writes through it hit what the variable refers to
+			if g, ok := x.X.(*ssa.Global); ok && x.Op == token.MUL {
+				switch g.Type().(*types.Pointer).Elem().Underlying().(type) {
+				case *types.Slice, *types.Pointer, *types.Map:
 					return g
 				}
 			}
@@ -171,28 +286,46 @@ func baseGlobal(v ssa.Value) *ssa.Global {
 	return nil
 }
 
-// calleeMayWrite: does the callee's contract (or absence of one) allow writing through argument ai?
+// calleeMayWrite: may the callee write through argument ai? (its modifies clause; without a
+// contract the syntactic may-write analysis of its body; unknown callees: yes, except known readers)
 func (en *Engine) calleeMayWrite(c *ssa.Call, ai int) bool {
 	fn := c.Call.StaticCallee()
 	if fn == nil {
+		if c.Call.IsInvoke() {
+			switch c.Call.Method.Name() {
+			case "Write": // io.Writer / hash.Hash read their argument
+				return false
+			}
+		}
 		return true
 	}
-	fc, _ := en.contractFor(fn)
-	if fc == nil {
-		// no contract: be conservative only for module functions with bodies (they are scanned themselves via their parameters)
+	if fc, _ := en.contractFor(fn); fc != nil && fc.HasMod && !fc.CTOnly {
+		if ai >= len(fn.Params) {
+			return false
+		}
+		pname := fn.Params[ai].Name()
+		for _, m := range fc.Modifies {
+			if regexp.MustCompile(`\b` + regexp.QuoteMeta(pname) + `\b`).MatchString(m.Src) {
+				return true
+			}
+		}
 		return false
 	}
-	if !fc.HasMod {
+	if fn.Blocks != nil {
+		if w := en.ctWrites(fn); w != nil {
+			return w[ai]
+		}
 		return true
 	}
-	if ai >= len(fn.Params) {
-		return false
-	}
-	pname := fn.Params[ai].Name()
-	for _, m := range fc.Modifies {
-		if strings.Contains(m.Src, pname) {
-			return true
+	key := fn.String()
+	for _, i := range ctExternReadonly[key] {
+		if i == ai {
+			return false
 		}
 	}
-	return false
+	switch key {
+	case "crypto/subtle.ConstantTimeCompare", "bytes.Equal":
+		return false
+	}
+	return true
 }
